@@ -283,4 +283,186 @@ theorem decodeV6_toBytes (o : OutPkt) (h : o.Fits) (hv : o.ipVer = 6) (hs : o.sr
     simp only [e66, ↓reduceIte, Nat.add_assoc]
     rfl
 
+/-! ### the packet `impersonate_tcp` returns fits its header fields -/
+
+/-- the base packet's own fields fit (it was dissected from, or can be built into, a datagram) -/
+structure Base.Fits (b : Base) : Prop where
+  addr4 : b.ipVer = 4 → b.src.length = 4 ∧ b.dst.length = 4
+  addr6 : b.ipVer = 6 → b.src.length = 16 ∧ b.dst.length = 16
+  ipId : b.ipId < 65536
+  sport : b.sport < 65536
+  dport : b.dport < 65536
+  seq : b.seq < 4294967296
+  ack : b.ack < 4294967296
+  window : b.window < 65536
+  payload : b.payload.length ≤ 59000
+
+theorem impTcp_fits (s : Sig) (b : Base) (hops : Int) (mtu : Nat) (up : Option Int) (c : Choices) (o : OutPkt)
+    (hadm : Admissible b) (hsup : Supported s b) (hbf : b.Fits) (hc : choicesOk s b up c = true)
+    (hh0 : 0 ≤ hops) (hh1 : hops < s.ttl) (hr : RunFacts s b hops mtu up c o) : o.Fits := by
+  obtain ⟨win, _, ho⟩ := impTcp_ok s b hops mtu up c o hr.run
+  have hoptLen := hr.optLen
+  have hwfacts := hr.window
+  have hc' := hc
+  unfold choicesOk at hc'
+  simp only [Bool.and_eq_true] at hc'
+  obtain ⟨⟨⟨⟨⟨⟨⟨c1, c2⟩, c3⟩, c4⟩, c5⟩, c7⟩, c8⟩, _⟩ := hc'
+  have hwin : o.window < 65536 := by
+    cases hw : s.wtype with
+    | normal => rw [hwfacts.1 hw]; exact hsup.winOk.1 hw
+    | mod =>
+      rw [hwfacts.2.1 hw]
+      have h2 := hsup.winOk.2.1 hw
+      simp only [hw, bne_self_eq_false, Bool.false_or, decide_eq_true_eq] at c7
+      have : s.wsize * c.winMul ≤ s.wsize * (65535 / s.wsize) := Nat.mul_le_mul_left _ c7.2
+      have := Nat.mul_div_le 65535 s.wsize
+      omega
+    | mss =>
+      obtain ⟨e, v, hv⟩ := hwfacts.2.2.1 hw
+      rw [e]
+      rcases lastMssOf_mem (bodyOpts s b up c) 0 with hm | ⟨_, hno⟩
+      · obtain ⟨k, c', _, hio, hok⟩ := hr.facts _ hm
+        have := ((plain_option_facts s b up hsup _ k c' hio hok).1 _ rfl).2 hw
+        omega
+      · exact absurd hv (hno v)
+    | mtu => exact absurd hw hsup.winOk.2.2.2
+    | any => rw [hwfacts.2.2.2 hw]; exact hbf.window
+  subst ho
+  have hflags := (impFlagsB_facts b.flags hadm.flagsLt (s.quirks .nzAck) (s.quirks .zeroAck) (s.quirks .nzUrg)
+    (s.quirks .urg) (s.quirks .push)).1
+  have hipf := (impIpFlagsB_facts b.ipFlags hadm.ipFlagsLt (s.quirks .df) (s.quirks .nzMbz)).1
+  refine { tos := ?_, ipId := ?_, ipFlags := ?_, ipFrag := ?_, ttl := ?_, fl := ?_, ipOpt := ?_, sport := hbf.sport,
+           dport := hbf.dport, seq := ?_, ack := ?_, flags := hflags, window := hwin, urp := ?_, opts := hoptLen,
+           payload := ?_ }
+  · simp only
+    cases he : s.quirks .ecn with
+    | false => simp
+    | true => simp only [he, Bool.not_true, Bool.false_or, decide_eq_true_eq] at c2; simp; omega
+  · simp only
+    split
+    · omega
+    · rename_i h6
+      have h6' : (b.ipVer == 6) = false := by simpa using h6
+      simp only [h6', Bool.false_eq_true, ↓reduceIte] at c1
+      have hb := hbf.ipId
+      have key : b.ipId = 0 → (s.quirks .df = true ∧ s.quirks .nzId = true) ∨ (s.quirks .df = false ∧ s.quirks .zeroId = false) →
+          c.id < 65536 := by
+        intro h0 hq
+        simp only [h0, bne_self_eq_false, Bool.false_or, Bool.or_eq_true, Bool.and_eq_true, Bool.not_eq_true',
+          decide_eq_true_eq] at c1
+        rcases hq with ⟨q1, q2⟩ | ⟨q1, q2⟩ <;> simp [q1, q2] at c1 <;> omega
+      unfold impIpId
+      by_cases h0 : b.ipId = 0
+      · have hb0 : (b.ipId == 0) = true := by simpa using h0
+        simp only [hb0, ↓reduceIte]
+        cases hdf : s.quirks .df <;> cases hnz : s.quirks .nzId <;> cases hz : s.quirks .zeroId <;> simp <;>
+          first | omega | exact key h0 (by simp [hdf, hnz, hz])
+      · have hb0 : (b.ipId == 0) = false := by simpa using h0
+        simp only [hb0]
+        cases s.quirks .df <;> cases s.quirks .nzId <;> cases s.quirks .zeroId <;> simp <;> omega
+  · simp only
+    split
+    · omega
+    · exact hipf
+  · simp only
+    split
+    · rfl
+    · exact hadm.noFrag
+  · simp only; have := hsup.ttlOk; omega
+  · simp only
+    split
+    · rename_i h6
+      simp only [h6, ↓reduceIte] at c1
+      cases hf : s.quirks .flow with
+      | false => simp
+      | true => simp only [hf, Bool.not_true, Bool.false_or, decide_eq_true_eq] at c1; simp; omega
+    · omega
+  · simp only
+    split
+    · omega
+    · exact hsup.sizeOk.1
+  · simp only
+    have := hbf.seq
+    unfold impSeq
+    cases hz : s.quirks .zeroSeq with
+    | true => simp
+    | false =>
+      simp only [hz, Bool.false_or, Bool.or_eq_true, bne_iff_ne, ne_eq, decide_eq_true_eq] at c3
+      by_cases hb0 : b.seq = 0
+      · rcases c3 with h | h
+        · exact absurd hb0 h
+        · simp [hb0]; omega
+      · have : (b.seq == 0) = false := by simpa using hb0
+        simp [this]; omega
+  · simp only
+    have := hbf.ack
+    unfold impAck
+    cases hn : s.quirks .nzAck with
+    | true =>
+      simp only [hn, Bool.not_true, Bool.false_or, Bool.or_eq_true, bne_iff_ne, ne_eq, decide_eq_true_eq] at c4
+      by_cases hb0 : b.ack = 0
+      · rcases c4 with h | h
+        · exact absurd hb0 h
+        · simp [hb0]; omega
+      · have : (b.ack == 0) = false := by simpa using hb0
+        simp [this]; omega
+    | false =>
+      cases hz : s.quirks .zeroAck <;> simp <;> omega
+  · simp only
+    unfold impUrp
+    rw [hadm.urp0]
+    cases hn : s.quirks .nzUrg with
+    | true =>
+      simp only [hn, Bool.not_true, Bool.false_or, hadm.urp0, bne_self_eq_false, decide_eq_true_eq] at c5
+      simp; omega
+    | false => simp
+  · simp only
+    have := hbf.payload
+    unfold impPayload
+    cases hp : s.payClass with
+    | none => simp; omega
+    | some p =>
+      cases p with
+      | false => simp
+      | true =>
+        simp only
+        cases he : b.payload.isEmpty with
+        | false => simp; omega
+        | true =>
+          simp only [hp, bne_self_eq_false, Bool.false_or, he, Bool.not_true, decide_eq_true_eq] at c8
+          simp; omega
+
+/-- **C05, down to the bytes**: under the hypotheses of `imp_exact_partial` and for a base packet whose own fields fit
+    a datagram, the packet `impersonate_tcp` returns, *serialised* (`OutPkt.toBytes`) and *dissected again* by the
+    verified extraction (`decodeV4` / `decodeV6`, `pktSigOfPkt` - the C03 model of what pyp0f reads off the wire),
+    is well framed and matches the requested signature exactly at TTL distance `extra_hops`. -/
+theorem imp_exact_bytes (s : Sig) (b : Base) (hops d : Int) (mtu : Nat) (up : Option Int) (c : Choices)
+    (hadm : Admissible b) (hsup : Supported s b) (hbf : b.Fits) (hc : choicesOk s b up c = true)
+    (hh0 : 0 ≤ hops) (hh1 : hops < s.ttl) (hh2 : hops ≤ d) :
+    ∃ o p, impTcp s b hops mtu up c = .ok o ∧
+      (if b.ipVer = 4 then decodeV4 o.toBytes else decodeV6 o.toBytes) = some p ∧
+      tcpMatchPkt s (pktSigOfPkt p 0) d = some .exact ∧
+      (s.ttl : Int) - ((pktSigOfPkt p 0).ttl : Int) = hops := by
+  obtain ⟨o, hrun, hmatch, hdist⟩ := imp_exact_partial s b hops d mtu up c hadm hsup hc hh0 hh1 hh2
+  obtain ⟨o', hr⟩ := run_facts s b hops mtu up c hsup hc
+  have : o' = o := by have := hr.run; rw [hrun] at this; exact (Except.ok.inj this).symm
+  subst this
+  have hfits := impTcp_fits s b hops mtu up c o' hadm hsup hbf hc hh0 hh1 hr
+  obtain ⟨win, _, ho⟩ := impTcp_ok s b hops mtu up c o' hrun
+  have hver : o'.ipVer = b.ipVer := by rw [ho]
+  have hsrc : o'.src = b.src := by rw [ho]
+  have hdst : o'.dst = b.dst := by rw [ho]
+  rcases hadm.ver with h4 | h6
+  · obtain ⟨p, hp, hsig⟩ := decodeV4_toBytes o' hfits (by rw [hver, h4]) (by rw [hsrc]; exact (hbf.addr4 h4).1)
+      (by rw [hdst]; exact (hbf.addr4 h4).2)
+    refine ⟨o', p, hrun, by simp only [h4, ↓reduceIte]; exact hp, ?_, ?_⟩
+    · rw [hsig]; exact hmatch
+    · rw [hsig]; exact hdist
+  · obtain ⟨p, hp, hsig⟩ := decodeV6_toBytes o' hfits (by rw [hver, h6]) (by rw [hsrc]; exact (hbf.addr6 h6).1)
+      (by rw [hdst]; exact (hbf.addr6 h6).2)
+    have hne : ¬ (b.ipVer = 4) := by omega
+    refine ⟨o', p, hrun, by simp only [hne, ↓reduceIte]; exact hp, ?_, ?_⟩
+    · rw [hsig]; exact hmatch
+    · rw [hsig]; exact hdist
+
 end P0f
